@@ -201,7 +201,7 @@ func (fr *frame) applyContract(x ssa.CallInstruction, callee *ssa.Function, meth
 		}
 		tags := c2.tagsFor(r)
 		if len(r.Tags) == 0 {
-			tags = append([]string{"C03", "safety"}, tags...)
+			tags = fr.safetyTags()
 		}
 		s.oblig("pre@call", label, tags, st.reach, fx.evalBool(r.E, env), pos, r.Src)
 	}
